@@ -81,6 +81,10 @@ Definition tail_ok (t : tail) : Prop :=
   end.
 
 Definition lim_ok (l : option Z) : Prop := match l with None => True | Some n => 0 <= n end.
+(* decimal fields within CPython's int-string limit (4300 digits) *)
+Definition lim_short (l : option Z) : Prop := match l with None => True | Some n => short n end.
+Definition tail_short (t : tail) : Prop :=
+  match t with TNone | TSlash => True | TCh ch | TChRate ch _ | TChRateAddr ch _ _ => short ch end.
 
 Definition tail_channel (t : tail) : Z :=
   match t with TNone | TSlash => 2 | TCh ch | TChRate ch _ | TChRateAddr ch _ _ => ch end.
@@ -117,6 +121,12 @@ Proof.
   destruct (alnum_not_special c c_plus Hc ltac:(special_tac)) as [-> _]. now rewrite IH.
 Qed.
 
+Lemma unquote_no_pct s : has c_pct s = false -> unquote s = s.
+Proof.
+  induction s as [|c s IH]; [reflexivity|]. rewrite has_cons. intros H. apply orb_false_iff in H as [H1 H2].
+  cbn [unquote]. rewrite (Ascii.eqb_sym c c_pct), H1. now rewrite IH.
+Qed.
+
 Lemma qs_get_lim n : 0 <= n -> qs_get (s2l "rate_limit") (s2l "rate_limit=" ++ dec n) = Some (dec n).
 Proof.
   intros Hn. unfold qs_get.
@@ -128,7 +138,8 @@ Proof.
   change (s2l "rate_limit=" ++ dec n) with (s2l "rate_limit" ++ c_eq :: dec n).
   rewrite break_at_app by reflexivity.
   destruct (dec n) as [|v vs] eqn:E; [now apply dec_nonnil in E|].
-  rewrite (plus_to_space_alnum (v :: vs) Ha). reflexivity.
+  rewrite (plus_to_space_alnum (v :: vs) Ha).
+  rewrite (unquote_no_pct (v :: vs)) by (apply alnum_has; [special_tac|exact Ha]). reflexivity.
 Qed.
 
 Lemma qs_get_nil key : qs_get key [] = None.
@@ -144,13 +155,13 @@ Definition finish (devid ch rate : Z) (addr : list Z) (query : str) : pres :=
               end
   end.
 
-Lemma finish_lim devid ch rate addr l : lim_ok l ->
+Lemma finish_lim devid ch rate addr l : lim_ok l -> lim_short l ->
   finish devid ch rate addr
     (match option_map (fun n => s2l "rate_limit=" ++ dec n) l with Some q => q | None => [] end) =
   POk devid ch rate addr l.
 Proof.
-  destruct l as [n|]; cbn [lim_ok option_map]; intros Hn; unfold finish.
-  - rewrite qs_get_lim, py_int_dec by exact Hn. reflexivity.
+  destruct l as [n|]; cbn [lim_ok lim_short option_map]; intros Hn Hsh; unfold finish.
+  - rewrite qs_get_lim by exact Hn. rewrite py_int_dec by assumption. reflexivity.
   - reflexivity.
 Qed.
 
@@ -180,18 +191,18 @@ Lemma app_nonnil {A} (a b : list A) : a <> [] -> a ++ b <> [].
 Proof. destruct a; [congruence|discriminate]. Qed.
 
 Theorem parse_fmt serials d t l devid :
-  dongle_ok serials d devid -> tail_ok t -> lim_ok l ->
+  dongle_ok serials d devid -> tail_ok t -> lim_ok l -> tail_short t -> lim_short l ->
   parse_uri serials (fmt_uri d t l) = POk devid (tail_channel t) (tail_rate t) (tail_address t) l.
 Proof.
-  intros Hd Ht Hl. destruct (devid_fmt serials d devid Hd) as [Hnl Hdev].
+  intros Hd Ht Hl Hts Hls. destruct (devid_fmt serials d devid Hd) as [Hnl Hdev].
   unfold parse_uri, fmt_uri. rewrite startswith_app. cbn [negb].
   rewrite fmt_lim_qpart.
   assert (Hs : special c_slash) by special_tac.
   assert (Hq : special c_qmark) by special_tac.
   assert (Hh : special c_hash) by special_tac.
   pose proof (lim_no_hash l Hl) as Hlh.
-  pose proof (fun ch rate addr => finish_lim devid ch rate addr l Hl) as Hfin. unfold finish in Hfin.
-  destruct t as [| |ch|ch r|ch r a]; cbn [tail_ok] in Ht; cbn [fmt_tail tail_channel tail_rate tail_address].
+  pose proof (fun ch rate addr => finish_lim devid ch rate addr l Hl Hls) as Hfin. unfold finish in Hfin.
+  destruct t as [| |ch|ch r|ch r a]; cbn [tail_ok] in Ht; cbn [tail_short] in Hts; cbn [fmt_tail tail_channel tail_rate tail_address].
   - (* radio://<dongle> *)
     rewrite urlsplit_fmt; [|exact Hnl|now left|reflexivity|reflexivity|exact Hlh].
     cbn [strip lstrip rstrip is_nil]. rewrite Hdev. apply Hfin.
@@ -205,7 +216,7 @@ Proof.
     unfold strip. rewrite lstrip_skip. fold (strip c_slash (dec ch)). rewrite strip_alnum by assumption.
     rewrite (is_nil_false _ Hne).
     rewrite split_on_none by (apply alnum_has; assumption).
-    rewrite Hdev, py_int_dec by exact Ht. apply Hfin.
+    rewrite Hdev. rewrite py_int_dec by assumption. apply Hfin.
   - (* radio://<dongle>/<channel>/<rate> *)
     destruct Ht as [Hch Hr].
     pose proof (dec_alnum ch Hch) as Ha. pose proof (dec_nonnil ch Hch) as Hne.
@@ -219,7 +230,7 @@ Proof.
     rewrite (is_nil_false _ (app_nonnil _ _ Hne)).
     rewrite split_on_app by (apply alnum_has; assumption).
     rewrite split_on_none by (apply alnum_has; assumption).
-    rewrite Hdev, py_int_dec, R1 by exact Hch. apply Hfin.
+    rewrite Hdev. rewrite py_int_dec by assumption. rewrite R1. apply Hfin.
   - (* radio://<dongle>/<channel>/<rate>/<address> *)
     destruct Ht as (Hch & Hr & Hal & Hah).
     pose proof (dec_alnum ch Hch) as Ha. pose proof (dec_nonnil ch Hch) as Hne.
@@ -241,7 +252,7 @@ Proof.
     rewrite split_on_app by (apply alnum_has; assumption).
     rewrite split_on_app by (apply alnum_has; assumption).
     rewrite split_on_none by (apply alnum_has; assumption).
-    rewrite Hdev, py_int_dec, R1 by exact Hch.
+    rewrite Hdev. rewrite py_int_dec by assumption. rewrite R1.
     assert (Hv : hex_val a = Some (horner 16 ds 0)) by (unfold hex_val; now rewrite Ed).
     destruct (addr_of_hex a _ Hal Hv) as [-> _]. rewrite Hv. apply Hfin.
 Qed.
